@@ -407,6 +407,98 @@ def run_protocol_level(ctx: Ctx, hc):
         loop.close()
 
 
+def run_upgrade_boundary(ctx: Ctx, hc):
+    """The moment the connection becomes secured: bytes that reached the HTTP parser in PLAINTEXT before
+    the session existed (e.g. appended by an on-path attacker to the segment that carries the controller's
+    pair-verify M3) are not payloads of authentic frames and must not be processed on the secured
+    connection. Real pair-verify with the reference controller, real ChaCha20-Poly1305."""
+    import json as _json
+
+    from cryptography.hazmat.primitives.asymmetric import ed25519
+
+    from props.c05 import IDENT, build_accessory
+    from ref import pv_client
+    from rig import Rig
+
+    rng = ctx.rng
+    st = ctx.stats
+    upgrade_lines, upgrade_impl = [], []
+    kinds = ["none", "get", "put", "garbage", "partial-put", "put+get"]
+    cases = [(k, n) for k in kinds for n in (0, 1, 2)] + [(rng.choice(kinds), rng.choice([0, 1, 2])) for _ in range(ctx.n(10, 200))]
+    for kind, n_auth in cases:
+        rig = Rig()
+        try:
+            driver = rig.driver
+            acc, chars = build_accessory(driver)
+            ltsk = ed25519.Ed25519PrivateKey.generate()
+            driver.state.add_paired_client(IDENT, pv_client.pub_bytes(ltsk), b"\x01")
+            proto, tr = rig.connect()
+            iid = driver.accessory.iid_manager.get_iid(chars[0])
+            chars[0].set_value("original", should_notify=False)
+            dispatched = []
+            orig = proto.handler.dispatch
+
+            def spy(request, body=None, _o=orig, _d=dispatched, _h=proto.handler):
+                _d.append((bytes(request.method), bytes(request.target), _h.is_encrypted))
+                return _o(request, body)
+
+            proto.handler.dispatch = spy
+            v = pv_client.Verifier(IDENT, ltsk)
+            proto.data_received(pv_client.http_post("/pair-verify", v.m1()))
+            msgs, _ = ref.split_messages(tr.data())
+            m3 = pv_client.http_post("/pair-verify", v.m3(msgs[-1][3]))
+            body = _json.dumps({"characteristics": [{"aid": 1, "iid": iid, "value": "INJECTED"}]}).encode()
+            put = b"PUT /characteristics HTTP/1.1\r\nHost: a\r\nContent-Length: %d\r\n\r\n" % len(body) + body
+            get = b"GET /accessories HTTP/1.1\r\nHost: a\r\n\r\n"
+            leftover = {"none": b"", "get": get, "put": put, "garbage": b"\x00\x17\x03junk", "partial-put": put[:-9],
+                        "put+get": put + get}[kind]
+            proto.data_received(m3 + leftover)
+            rig.loop.settle()
+            closed_at_upgrade = tr.closed
+            # authentic traffic of the real controller afterwards
+            cipher = ref.Real(ref.hkdf(v.shared, ref.SALT, ref.C2A))
+            auth_targets = []
+            ctr = 0
+            for i in range(n_auth):
+                if tr.closed:
+                    break
+                req = b"GET /characteristics?id=1.%d HTTP/1.1\r\nHost: a\r\n\r\n" % iid
+                frames = ref.seal_frames(cipher, [req], start=ctr)
+                ctr += 1
+                auth_targets.append(b"/characteristics?id=1.%d" % iid)
+                proto.data_received(b"".join(frames))
+                rig.loop.settle()
+            secured = [(m, t) for m, t, enc in dispatched if enc]
+            rep = {"kind": "upgrade-boundary", "leftover": kind, "authentic_requests": n_auth}
+            non_auth = [(m, t) for m, t in secured if t not in auth_targets]
+            if non_auth:
+                ctx.fail(
+                    "C04:plaintext-processed-on-secured-connection",
+                    f"bytes received in plaintext before the session existed (leftover '{kind}' behind the pair-verify M3) were "
+                    f"dispatched as request(s) {non_auth} of the secured session"
+                    + ("; the injected write was executed" if chars[0].value == "INJECTED" else ""),
+                    rep,
+                    size=len(kind) + n_auth,
+                )
+            elif chars[0].value == "INJECTED":
+                ctx.fail("C04:plaintext-processed-on-secured-connection", "an injected plaintext write changed a value", rep)
+            elif kind == "none" and not tr.closed and [t for _, t in secured] != auth_targets:
+                ctx.fail("C04:requests-not-dispatched", f"authentic requests after a clean upgrade: dispatched {secured}", rep)
+            upgrade_lines.append({"layer": "frame", "op": "upgrade", "key": 0, "leftover": hx(leftover), "reads": []})
+            upgrade_impl.append({"closed_at_upgrade": closed_at_upgrade, "kind": kind})
+            st.case(["upgrade", kind, n_auth], kind != "none")
+            st.hit("op", "upgrade:" + kind)
+            st.hit("outcome", "upgrade-closed" if tr.closed else "upgrade-open")
+        finally:
+            rig.close()
+    # correspondence: the model's `upgrade` closes exactly when the parser held leftover plaintext
+    model = run_model_parallel("C04", upgrade_lines)
+    for m, i in zip(model, upgrade_impl):
+        st.traces_validated += 1
+        if m.get("closed") != i["closed_at_upgrade"]:
+            ctx.disagree("upgrade-boundary", {"leftover": i["kind"]}, m, i)
+
+
 def _short(x):
     s = str(x)
     return s if len(s) < 200 else s[:200] + f"...<{len(s)} chars>"
@@ -424,6 +516,7 @@ def run(ctx: Ctx):
     run_mock_stream(ctx, hc)
     run_real_stream(ctx, hc)
     run_protocol_level(ctx, hc)
+    run_upgrade_boundary(ctx, hc)
 
 
 def search(ctx: Ctx):
@@ -446,6 +539,12 @@ def search(ctx: Ctx):
 
 def replay(ctx: Ctx, r):
     hc = _mods()
+    if r["kind"] == "upgrade-boundary":
+        run_upgrade_boundary(ctx, hc)
+        for f in ctx.failures:
+            print("FAILS:", f.signature, f.description)
+        print("verdict:", "property violated on this input" if ctx.failures else "holds on this input")
+        return 1 if ctx.failures else 0
     stream = bytes.fromhex(r["stream"])
     reads, pos = [], 0
     for n in r["reads"]:
